@@ -15,15 +15,16 @@ RULE_TEXT = ("One always/partly failing step under wait_fixed, wait_chain (2-4 d
              "compared, in virtual time, with the failure instant plus the documented delay (k-th retry -> k-th chain "
              "element / multiplier*base^(k-1) / start+increment*(k-1); documented lower bound for random strategies). "
              "Non-trivial: >=2 retries observed; distinct = (strategy kind, number of retries, parameters)."
-             " Chains may contain a link that is itself a sum (fixed+random, fixed+fixed); contended arm may have a sibling consumer of the event type.")
+             " Chains may contain a link that is itself a sum (fixed+random, fixed+fixed); contended arm may have a sibling consumer of the event type;"
+             " collecting arm: the retried step buffers with collect_events and a successful, stale-snapshot invocation that the engine re-runs sits between its failures.")
 COMPONENTS = {"real": ["workflows.* engine, retry_policy"], "stub": ["llama_index_instrumentation"], "sim": ["loop, clocks"]}
 ASSUMPTIONS = ["tenacity indexing as quoted in the property statement: first retry = first chain strategy, initial/multiplier delay"]
-EXPECTED_PROBES = ["retried-under-a-time-budget", "contended-arm", "retry-waited-for-slot", "chain-with-attempt-dependent-tail", "retry>=2", "chain", "exp", "inc", "random-family"]
+EXPECTED_PROBES = ["retried-under-a-time-budget", "contended-arm", "retry-waited-for-slot", "chain-with-attempt-dependent-tail", "retry>=2", "retry-after-stale-collect-rerun", "chain", "exp", "inc", "random-family"]
 LEVEL_TEXT = ("Seeded exploration of wait strategies x failure counts in virtual time, so 'earlier' has no scheduling slack; "
               "lower bound checked for every retry, exact documented delay for the first retry of deterministic strategies.")
 LEVEL_NOTE = "Trusted: simulator clock; reference delay table in worlds/policies.py."
 
-CFG = {"driver": "result", "grid": [0, 1, 2], "p_handler": 0, "rich_waits": True, "stop_attempts_only": True, "p_contend": 40, "p_stop_deadline": 35}
+CFG = {"driver": "result", "grid": [0, 1, 2], "p_handler": 0, "rich_waits": True, "stop_attempts_only": True, "p_contend": 40, "p_stop_deadline": 35, "p_collect_retry": 15}
 
 
 def gen(tape, cfg):
@@ -37,7 +38,9 @@ def check(world, spec, outcome) -> None:
     w = pol["wait"]
     wk = wait_kind(w)
     contended = bool(spec.get("contended"))
-    if contended:
+    if spec.get("collecting"):
+        world.probe("collecting-arm")
+    elif contended:
         world.probe("contended-arm")
     nretry = 0
     # instant at which the engine re-delivered the event for its k-th retry (the delayed TickAddEvent): the scheduled delay,
@@ -47,12 +50,33 @@ def check(world, spec, outcome) -> None:
         if kind == "tick" and f.get("tick") == "add_event" and f.get("attempts"):
             redelivered.setdefault((f.get("uid"), f["attempts"]), t)
     for uid, atts in deliveries(world.trace.recs).items():
+        # earliest instant from which this event's history contains an execution started at the instant a failed execution
+        # with the same retry number ended (linear: failed executions indexed by (retry number, end instant))
+        failed_at: dict = {}
+        for a in atts:
+            if a["exit"].startswith("raised:"):
+                failed_at.setdefault((a["enter"].get("retry"), round(a["t1"], 6)), []).append(a)
+        taint = float("inf")
+        for b in atts:
+            for a in failed_at.get((b["enter"].get("retry"), round(b["t0"], 6)), []):
+                if a is not b:
+                    taint = min(taint, max(a["t0"], b["t0"]))
         for i in range(1, len(atts)):
             prev, cur = atts[i - 1], atts[i]
             if not prev["exit"].startswith("raised:"):
                 continue
             nretry += 1
-            k = i
+            # the k-th retry follows the k-th failure; a successful invocation in between (the engine's re-run of a collecting
+            # invocation whose buffer snapshot went stale) is not a failure
+            k = sum(1 for a in atts[:i] if a["exit"].startswith("raised:"))
+            if k != i:
+                world.probe("retry-after-stale-collect-rerun")
+            # root cause attribute: somewhere up to here the engine ran this event again at once after a FAILED attempt, under
+            # the same retry number (stale-snapshot re-run issued for a failed collecting invocation, next to its retry)
+            # (the two executions may overlap, so the pair need not be adjacent in the list, which is ordered by exit)
+            rof = cur["t0"] >= taint - 1e-9
+            if rof:
+                world.probe("failed-attempt-rerun-at-once")
             start_gap = cur["t0"] - prev["t1"]
             rt = redelivered.get((uid, k))
             gap = (rt - prev["t1"]) if (rt is not None and prev["t1"] - 1e-9 <= rt <= cur["t0"] + 1e-9) else start_gap
@@ -65,12 +89,12 @@ def check(world, spec, outcome) -> None:
                               (nxt is None and nrange is not None and nrange[0] - 1e-9 <= gap <= nrange[1] + 1e-9)) else "other"
             if gap < lb - 1e-9:
                 world.violate("C06.too-early", f"uid {uid}: retry {k} started {gap}s after failure {k}; {w} documents >= {lb}s", cur["seq"],
-                              strategy=wk, index=index)
+                              strategy=wk, index=index, rerun_of_failed=rof)
             exact = ref_wait_exact(w, k)
             # exactness is judged on the re-delivery instant: with contention a due retry may additionally wait for a worker slot
             if k == 1 and (not contended or rt is not None) and exact is not None and abs(gap - exact) > 1e-9 and gap >= lb - 1e-9:
                 world.violate("C06.first-retry-delay", f"first retry waited {gap}s; {w} documents {exact}s for the first retry "
-                              f"(first chain strategy / initial delay)", cur["seq"], strategy=wk, index=index)
+                              f"(first chain strategy / initial delay)", cur["seq"], strategy=wk, index=index, rerun_of_failed=rof)
             if contended and start_gap > gap + 1e-9:
                 world.probe("retry-waited-for-slot")
     if pol["stop"][0] == "any" and nretry:
@@ -88,4 +112,4 @@ def check(world, spec, outcome) -> None:
 
 
 def run(tape):
-    return simulate(tape, CFG, check, gen=gen, nontrivial=lambda w, s, o: w._nt)
+    return simulate(tape, CFG, check, gen=gen, nontrivial=lambda w, s, o: w._nt, check_on_cap=True)
